@@ -27,6 +27,8 @@ def frac_lemmas(facts):
         fn = ops.FRAC(nu)
         out.append(z3.And(fn >= 0, fn < 1))
         out.append(fn == z3.If(fu == 0, z3.RealVal(0), 1 - fu))
+        out.append(z3.Implies(u >= 0, fu <= u))
+        out.append(z3.Implies(nu >= 0, fn <= nu))
     # pairwise: if u - v is (provably) an integer the fractions agree  --  stated as an implication
     for i, u in enumerate(terms):
         for v in terms[i + 1:]:
